@@ -143,4 +143,39 @@ func init() {
 		t.Stop()
 		return map[string]interface{}{"res": out, "early": early}, nil
 	})
+	// timerEarly: for every duration (microseconds) arm a Timer and block on its channel; reports how long the
+	// expiry took (nanoseconds).  Mode 0: a fresh Timer each time; 1: one Timer, re-armed after its expiry was
+	// read; 2: one Timer, re-armed while an hour-long expiry is pending.
+	register("timerEarly", func(raw json.RawMessage) (interface{}, error) {
+		var a struct {
+			Mode int
+			Us   []int64
+		}
+		if err := json.Unmarshal(raw, &a); err != nil {
+			return nil, err
+		}
+		took := make([]int64, 0, len(a.Us))
+		t := timeutil.NewTimer()
+		for _, us := range a.Us {
+			d := time.Duration(us) * time.Microsecond
+			switch a.Mode {
+			case 0:
+				t.Stop()
+				t = timeutil.NewTimer()
+			case 2:
+				t.Reset(time.Hour)
+			}
+			start := time.Now()
+			t.Reset(d)
+			select {
+			case <-t.C:
+				t.Read = true
+				took = append(took, int64(time.Since(start)))
+			case <-time.After(5 * time.Second):
+				took = append(took, -1)
+			}
+		}
+		t.Stop()
+		return map[string]interface{}{"took": took}, nil
+	})
 }
